@@ -4,6 +4,7 @@ import json, os
 HOOK_COMMITS = [l.split()[0] for l in os.popen("git -C /repo log --format='%h %s' | grep 'verif hook'").read().splitlines()]
 ENGINES = [
  {"name":"CONSNET","path":"consnet/","serves_properties":[],"kind_free_text":"N real pbft.ConsensusState machines (real Start, receiveRoutine, WAL, signer files, block store) driven one input at a time through a build-tagged rendez-vous gate by a harness that is the network, the timers and the disk (crash points); deviation-bounded enumeration of rule subsets; monitors = property oracles; worker subprocess pool"},
+ {"name":"DIFFREF","path":"props/c10 props/c11 props/c18","serves_properties":[],"kind_free_text":"upstream go-ethereum v1.8.27 linked into the same binary as the in-tree copy; enumerators feed both, canonical outcome records are compared byte for byte"},
  {"name":"XSTATE","path":"props/*/ (drivers) + core/","serves_properties":[],"kind_free_text":"explicit enumeration of operation histories / input grids on the real objects against a reference model written in Go; every case executed on the implementation"},
 ]
 # id -> (engine, category, technique, text, note, design_ref, has_thorough)
@@ -46,6 +47,25 @@ chk("C03","XSTATE","fault_enumeration","explicit-state crash exploration of the 
 chk("C14","XSTATE","model_checking","exhaustive enumeration of signature lists and of request sequences through the real governance path (signed tx -> contract -> 0xfe precompile -> AdminOp -> EndBlock -> ExecBlock) on lock-step and late replicas against a reference tally and set algebra",
     "Every signature list of length <=4 (quick) / <=5 (thorough) over 10 entry kinds on four power vectors is offered to the real AdminOp; every request sequence of length <=2-3 over a 38-letter alphabet (add/update/remove/unknown x targets x nonce n-1,n,n+1 x senders x signature shapes x channel contract/direct precompile, literal replays) runs through the real execution path on two lock-step replicas and late replicas; accepted iff distinct current validators with >2/3 power signed exactly that request with the bound sender and nonce; rejected requests change nothing; all replicas end with the same sorted duplicate-free set and hash; a read-only query must not change anything.",
     "Consensus, p2p and mempool do not run (block validity is C02); part 2 drives core.ApplyTransaction per tx the way executeOriginTx does, part 3 the real EVMApp. Two base sets for sequences.")
+
+chk("C09","XSTATE","exploration","exhaustive grid of signed transactions and byte-level inputs executed through the real EVMApp.OnExecute/OnCommit with a counterfactual re-execution oracle",
+    "A grid of signed transactions (recipient incl. every precompile and 0xfe x payload shapes x nonce cur-1/cur/cur+1 x gas fields x value x signature shapes) is placed alone+repeated in the next block, twice in one block and between two valid transactions, plus every byte string of length <=2 and every single-byte mutation/truncation of three valid transactions as raw block entries; no panic, every tx reported exactly once as valid or invalid, removing the reported-invalid txs leaves hashes and state identical (counterfactual run on a clone), every valid tx has a receipt/KV record and raises its sender's nonce from exactly its own nonce by one.",
+    "Two fixture contracts only (C10 covers the interpreter); funded harness genesis; blocks of <=3 grid transactions.")
+chk("C10","DIFFREF","exploration","exhaustive differential execution of the in-tree EVM against upstream go-ethereum v1.8.27 linked into the same binary (opcode x operand grid, every program of <=3/4 tokens, call-graph templates)",
+    "All 256 opcodes x boundary operand tuples (direct, behind CALL, behind STATICCALL), every token sequence of length <=3 (quick) / <=4 (thorough, budget-capped) over a 47-token alphabet with 3 call data x 2 pre-states, and call-graph templates (CALL/CALLCODE/DELEGATECALL/STATICCALL/CREATE/CREATE2 x value x callee incl. all precompiles x 20 callee bodies, depth 3) run on both EVMs; outcome class, return data, logs, self-destructs and the full post-state must be byte-equal. Documented deviations (budget metering, 0xfe) are neutralised by the harness, not by exceptions in the comparison.",
+    "Reference = upstream v1.8.27 with Constantinople at block 0 and EIP-1283 kept; gas-observable behaviour excluded by the property itself; both the all-forks-at-0 config and the application's actual chain config are run.")
+chk("C11","XSTATE+DIFFREF","model_checking","breadth-first explicit-state search over trie / SecureTrie / StateDB operation histories with canonical-state merging; oracles: content map model, upstream v1.8.27 in the same binary, canonical rebuild, proofs",
+    "Every operation history (update/delete/get/hash/commit/three reopen variants/prove over 8 colliding keys x 3 value sizes; StateDB balance/nonce/code/storage/suicide/create/log/refund/snapshot/revert/intermediate root/commit+reopen on 2 addresses) to depth 5/4 (quick) and 7/5 (thorough) is replayed on fresh in-tree and upstream instances: gets equal the content map, root equals the upstream root and the root of a sorted rebuild (history independence, merge oracle), reopen reproduces content, every proof verifies to value or absence, revert restores the snapshot exactly.",
+    "MemDatabase backends; depth and key set as stated; collision-free hashes.")
+chk("C18","DIFFREF","exploration","exhaustive bounded enumeration on the real codecs: reflection-driven boundary grid round trips (binary+JSON+RLP), every short byte string and every single-byte mutation into every decoder, length bombs with allocation accounting, all pairs of signables, RLP differential against upstream",
+    "61 consensus-critical root types (found by a run-time walk of go-wire's registry) are round-tripped over a boundary grid in binary and JSON and must re-encode identically; every byte string of length <=2 and every truncation/substitution of every grid encoding goes into every decoder with limits 0,1,len-1,len,len+1 (no panic, n<=limit, allocation <= 64*limit+1MiB, measured single-threaded); every RLP string of length <=2 (quick) / <=3 (thorough, 16.8M) must decode, fail and re-encode exactly like upstream; all ordered pairs of votes/proposals over a grid incl. adversarial chain ids must have different sign-bytes unless equal.",
+    "Times millisecond-aligned (the codec's documented precision), valid UTF-8 strings; multi-field interactions only through four base values.")
+chk("C19","XSTATE","model_checking","breadth-first explicit-state search over submit/reap/commit/flush histories on the real ethTxPool (inside a real EVMApp) and the real gemmill Mempool against a reference model with canonical-state merging and merge oracle",
+    "Histories over ReceiveTx (2 accounts x nonces 0..3 x 2 payloads, admin-op txs), Reap(0|1|2|-1), commit of a prefix of the last reap through a real executed block plus the pool's real Update, Flush and the observers, from an empty pool and from a nearly full one; same for the default mempool with opaque txs and both limit configurations; on every Reap: consecutive nonces from the state nonce, no duplicate (account,nonce), nothing a committed block contained, no accepted executable tx lost after draining, exact duplicates rejected, size bounds.",
+    "Depth completed per system is reported in the evidence (time-capped); concurrent submitters and the eviction ticker are not driven here.")
+chk("C20","XSTATE","model_checking","exhaustive enumeration of write/read size sequences and frame-level tampering on real SecretConnections over an in-memory duplex; breadth-first state search on real Channel objects; full product of admission configurations through the real Switch.AddPeerWithConnection",
+    "Every write sequence (<=2/3 writes) x read-buffer sequence (<=3/4 reads) over 9 boundary sizes in both directions must deliver exactly the written stream; every man-in-the-middle action (bit flips in each frame region, swap, replay, drop, insert, splice, truncate, key substitution, reflection, lying signers) at frames 0..4 must end in an error without any altered byte returned; all send/pump/poll/deliver histories to depth 6/8 on two real channels keep per-channel FIFO and integrity; all 1920 admission configurations x 3 validator-set phases must match the reference predicate.",
+    "MConnection routines and the priority rule only through a 27-scenario progress-based conformance subset; cryptographic primitives trusted.")
 
 NOT_YET = "check not built yet in this round (planned in DESIGN.md §5); not claimed until its quick check passes on the unchanged tree"
 props=[json.loads(l)['id'] for l in open('/verif/properties.jsonl')]
